@@ -78,6 +78,7 @@ def run(ctx, F):
     sink_rule(ctx, F)
     arm_effects(ctx, F)
     function_interpreter_arms(ctx, F)
+    writers_always_emit(ctx, F)
     ctx.explanation = ("F2 error flow over every MIR body of the rsass library: each call returning Result<_, E> (E not a nom parser error) "
                        "is followed to its consumers; `?`/return/transfer propagate, ok()/unwrap_or*/is_err/if-let-without-error/dropped-unread absorb. "
                        "Absorbing sites must be in tables/errflow_reviewed.json (exact key) or known_findings.json. Plus: push_item decision tables drop only "
@@ -213,6 +214,50 @@ def function_interpreter_arms(ctx, F):
                          f"{what} of ScopeRef::eval_body evaluates to `None` without any effect: every item kind it covers is silently dropped from function bodies "
                          "(the interpreter of nested control-flow bodies is the only place these are seen)", where=f["path"])
     ctx.floor("eval_body arms", n, 10)
+
+
+WRITER_SILENT_REVIEWED = {
+    "<css::item::Item>::write": "Item::None (and items that were merged away) write nothing by design",
+    "<css::mediarule::MediaArgs>::write": "an empty media query list writes nothing",
+    "<css::mediarule::MediaRule>::write": "a @media rule whose body is empty is omitted (Sass semantics)",
+    "<css::rule::Rule>::write": "a style rule without body, or whose selectors were all placeholders (C22), is omitted",
+}
+_EMIT = None
+
+
+def writers_always_emit(ctx, F, rule="F3-writer-emits"):
+    """Write-time drops: every `write` method of the css item types emits something on every success path,
+    except the reviewed omissions.  A new early `return Ok(())` under a data predicate (e.g. "this block has no
+    visible content") silently removes evaluated content — comments included — from the output."""
+    import re
+    from lib import sym, cfgutil
+    prog = F.lib
+    S = sym.Sym(prog, inline_depth=0)
+    emit_rx = re.compile(r"CssBuf>::(add_str|add_one|add_char|start_block|end_block|do_indent\w*|pop_nl)$|::write(_to|_fmt|_str|_char)?$|>::fmt$")
+    n = 0
+    for dname, b in sorted(prog.bodies.items()):
+        if not re.search(r"^<css::[^>]*>::write$", dname):
+            continue
+        n += 1
+        err = set(cfgutil.error_exit_blocks(b))
+        emit = {bi for bi, t in b.calls() if emit_rx.search(mir.callee_name(t) or "") or emit_rx.search(mir.callee_orig(t) or "")}
+        p = cfgutil.paths_to_return_avoiding(b, 0, emit | err)
+        key = mir.short(dname)
+        if not p:
+            ctx.ok(rule, key + "|emits on every success path", None)
+            continue
+        guards = []
+        for x in p:
+            t = b.blocks[x]["term"]
+            if t["k"] == "switch":
+                cs = [mir.short(c) for c in sym.calls_in(S.operand(b, t["discr"])) if "Deref" not in c][:2]
+                if cs:
+                    guards.append("/".join(cs))
+        if dname in WRITER_SILENT_REVIEWED:
+            ctx.reviewed(rule, key + "|may write nothing", WRITER_SILENT_REVIEWED[dname])
+        else:
+            ctx.fail(rule, key + "|may write nothing", f"{key} can return Ok without writing anything (deciding tests: {guards[:3] or 'none'}): content that was evaluated and handed to the writer — loud comments included — can vanish from the output", where=b.where(), path=[f"bb{x}" for x in p[:10]])
+    ctx.floor("css item writers", n, 10)
 
 
 def iter_descr(b, t):
